@@ -53,3 +53,69 @@ package canonicalizer
 //@   requires p != nil
 //@   modifies p.sortQuery
 //@   ensures p.sortQuery == sortType   [C16]
+
+// ---------------------------------------------------------------------------------------------------------------
+// canonicalizer.go / profiles.go
+// ---------------------------------------------------------------------------------------------------------------
+
+//@ global canonicalizer.sets: LaxPathPercentEncodeSet != nil && LaxPathPercentEncodeSet.bs != nil
+//@    && LaxQueryPercentEncodeSet != nil && LaxQueryPercentEncodeSet.bs != nil
+//@    && RepeatedQueryPercentDecodeSet != nil && RepeatedQueryPercentDecodeSet.bs != nil
+//@ global canonicalizer.profiles: WhatWg != nil && WhatWgSortQuery != nil && GoogleSafeBrowsing != nil && Semantic != nil
+
+//@ func init
+
+//@ func unhex
+//@   ensures specIsHex(c) ==> result == specHexVal(c)   [C17]
+//@   ensures 0 <= result && result <= 15
+
+//@ func percentEncodeByte
+//@   requires tr == nil || tr.bs != nil
+//@   ensures (tr != nil && !setHas(tr, b)) ==> result == utf8(b)   [C17]
+//@   ensures (tr == nil || setHas(tr, b)) ==> (len(result) == 3 && result[0] == '%' && result[1] == "0123456789ABCDEF"[b / 16] && result[2] == "0123456789ABCDEF"[b % 16])   [C17]
+
+//@ func percentEncode
+//@   requires tr != nil && tr.bs != nil
+
+//@ func decodePercentEncoded
+//@   ensures len(result) <= len(s)   [C02,C17]
+//@   ensures result == s || len(result) < len(s)   [C02,C17]
+//@   loop 1 invariant 0 <= i && i <= len(bytes) && len(bytes) == len(s) && fresh(bytes) && off(bytes) == 0 && content(bytes) == bytesOf(s)
+//@   loop 1 invariant len(bufv(sb)) <= i && (len(bufv(sb)) == i ==> bufv(sb) == s[0:i])
+//@   loop 1 decreases len(bytes) - i
+
+//@ func repeatedDecode
+//@   ensures len(result) <= len(s)
+//@   loop 1 invariant len(s) <= old(len(s))
+//@   loop 1 decreases len(s)
+
+//@ func decodeEncode
+//@   requires tr != nil && tr.bs != nil
+
+//@ func (*profile).Canonicalize
+//@   requires p != nil && wf(u)
+//@   modifies u.*, u.path.*, u.path.p[..], u.validationErrors[..], u.searchParams.params, u.searchParams.params[..],
+//@            all(u.searchParams.params).Name, all(u.searchParams.params).Value
+//@   ensures result0 == u && result1 == nil && wf(u)   [C02]
+//@   ensures p.removeFragment ==> u.fragment == nil   [C16]
+//@   ensures (p.removePort && u.host != nil && *u.host != "" && u.scheme != "file") ==> u.port == nil   [C16]
+
+//@ func (*profile).Canonicalize$1
+//@   requires pair != nil
+//@   modifies pair.Name, pair.Value
+
+//@ func (*profile).Parse
+//@   requires p != nil && p.Parser != nil
+//@   ensures result1 == nil ==> (result0 != nil && wf(result0))   [C02]
+//@ func (*profile).ParseRef
+//@   requires p != nil && p.Parser != nil
+//@   ensures result1 == nil ==> (result0 != nil && wf(result0))   [C02]
+
+//@ func New
+//@   requires forall k int :: 0 <= k && k < len(opts) ==> opts[k] != nil
+//@   ensures result != nil && fresh(result)
+//@   loop 1 modifies p.removeUserInfo, p.removePort, p.removeFragment, p.sortQuery, p.repeatedPercentDecoding, p.defaultScheme
+//@   loop 1 invariant p != nil && fresh(p) && p.Parser != nil
+
+//@ func init$1
+//@ func init$2
